@@ -1,6 +1,8 @@
 import ParryModel.C14.Lemmas
 import ParryModel.C14.Theorems2
 import ParryModel.C14.Theorems3
+import ParryModel.C14.Theorems4
+import ParryModel.C14.Theorems5
 /-!
 # C14 property theorems: persistent contact manifolds, for every linearly ordered field.
 
@@ -583,9 +585,7 @@ theorem halfspaceDispatch3_good (feat : V3 K → List (V3 K)) (hsFirst : Bool) (
 
 /-! ## the two concrete shape functions used by the correspondence: cuboid projection and support face -/
 
-/-- `copysign` at the lawful instance (no signed zero in a field: `copysign a 0 = |a|`) -/
-@[reducible] def fieldCopysign (K : Type) [Field K] [LinearOrder K] [IsStrictOrderedRing K] : HasCopysign K :=
-  ⟨fun a b => if b < 0 then -|a| else |a|⟩
+-- `fieldCopysign` (copysign at the lawful instance) now lives in `Lemmas.lean` (shared with `Theorems4.lean`)
 
 /-- every vertex of `Cuboid::support_face` is a point of the cuboid (so the `local_p2` witnesses of
 half-space/cuboid contacts lie in the cuboid rounded by the border radius) -/
